@@ -24,6 +24,7 @@ Tm0 == [t0 |-> 0, t1 |-> 0]
 Size(e) == IF e.t = "string" \/ e.t = "list" THEN Len(e.v)
            ELSE IF e.t = "set" THEN Cardinality(e.v)
            ELSE IF e.t \in {"hash", "zset"} THEN Cardinality(DOMAIN e.v)
+           ELSE IF e.t = "stream" THEN Len(e.v.ents)
            ELSE 0
 Small(KK) == \A k \in DOMAIN KK : Size(KK[k]) <= MaxStr1
 
@@ -60,7 +61,7 @@ ReadOnlyNames == {"GET", "MGET", "STRLEN", "GETRANGE", "EXISTS", "TYPE", "KEYS",
                   "TTL", "PTTL", "LLEN", "LRANGE", "LINDEX", "SMEMBERS", "SISMEMBER", "SCARD", "SUNION",
                   "SINTER", "SDIFF", "SRANDMEMBER", "HGET", "HMGET", "HGETALL", "HLEN", "HEXISTS", "HKEYS",
                   "HVALS", "ZSCORE", "ZCARD", "ZRANK", "ZREVRANK", "ZRANGE", "ZREVRANGE", "ZRANGEBYSCORE",
-                  "ZREVRANGEBYSCORE", "ZCOUNT", "XRANGE", "XREVRANGE", "XLEN", "XREAD"}
+                  "ZREVRANGEBYSCORE", "ZCOUNT", "XRANGE", "XREVRANGE", "XLEN", "XREAD", "XPENDING", "XINFO"}
 ReadOnly == (path # <<>> /\ CmdName(Upper(path[Len(path)][1])) \in ReadOnlyNames) => K = lastK
 
 (* cross-command laws evaluated in every reachable state *)
@@ -83,6 +84,45 @@ ZLaws(k) ==
      /\ R1("ZCOUNT", <<L_ZCOUNT, k, L_minf, L_pinf>>) = RInt(n)
      /\ Len(R1("ZRANGEBYSCORE", <<L_ZRANGEBYSCORE, k, L_minf, L_pinf>>).v) = n
 
+(* stream laws (C15): XLEN = number of entries, ids strictly increasing, last >= every id, full range = all entries,
+   an id not greater than the last one is refused; consumer groups (C16): XPENDING's total, bounds and per-consumer
+   counts equal the pending set, every owner is a consumer of the group *)
+RECURSIVE SumCounts(_)
+SumCounts(ps) == IF ps = <<>> THEN 0 ELSE SmallOf(Head(ps)[2]) + SumCounts(Tail(ps))
+GroupLaws(k, g) ==
+  LET grp == K[k].v.groups[g] pel == grp.pel n == Cardinality(DOMAIN pel)
+      sum == R1("XPENDING", <<L_XPENDING, k, g>>)
+      ext == R1("XPENDING", <<L_XPENDING, k, g, L_minus, L_plus, <<49, 48, 48>>>>)
+  IN /\ sum.v[1] = RInt(n)
+     /\ ext.t = "pendext" /\ Len(ext.v) = n
+     /\ \A i \in 1..(n - 1) : IdLt(IdOf(ext.v[i][1]), IdOf(ext.v[i + 1][1]))
+     /\ n > 0 => /\ sum.v[2] = RBulk(ext.v[1][1]) /\ sum.v[3] = RBulk(ext.v[n][1])
+                 /\ SumCounts(sum.v[4].v) = n
+                 /\ \A i \in 1..Len(sum.v[4].v) : SmallOf(sum.v[4].v[i][2]) > 0
+     /\ \A x \in DOMAIN pel : CStat(grp, pel[x].c) \in {"yes", "dev"} /\ pel[x].n >= 1
+     /\ grp.skew = {}
+     /\ \A c \in DOMAIN grp.cons :
+          Len(R1("XPENDING", <<L_XPENDING, k, g, L_minus, L_plus, <<49, 48, 48>>, c>>).v) = Cardinality(OwnedBy(pel, c))
+StreamLaws(k) ==
+  LET v == K[k].v es == v.ents n == Len(es) IN
+  /\ R1("XLEN", <<L_XLEN, k>>) = RInt(n)
+  /\ \A i \in 1..(n - 1) : IdLt(es[i].id, es[i + 1].id)
+  /\ \A i \in 1..n : IdLe(es[i].id, v.last) /\ es[i].id # ZeroId
+  /\ R1("XRANGE", <<L_XRANGE, k, L_minus, L_plus>>) = REnts(es)
+  /\ R1("XREVRANGE", <<L_XREVRANGE, k, L_plus, L_minus>>) = REnts(Rev(es))
+  /\ R1("XREAD", <<L_XREAD, L_STREAMS, k, <<48, 45, 48>>>>) = (IF n = 0 THEN RNilArr ELSE RArr(<<RArr(<<RBulk(k), REnts(es)>>)>>))
+  /\ R1("XREAD", <<L_XREAD, L_STREAMS, k, L_dollar>>) = RNilArr
+  /\ \A i \in 1..n : R1("XRANGE", <<L_XRANGE, k, IdBytes(es[i].id), IdBytes(es[i].id)>>) = REnts(<<es[i]>>)
+  /\ DataCmd("XADD", <<L_XADD, k, IdBytes(v.last), <<97>>, <<49>>>>, K, Tm0, NoObs) = Fail(K)
+  /\ \A o \in DataCmd("XADD", <<L_XADD, k, L_star, <<97>>, <<49>>>>, K, Tm0, NoObs) :
+        o.r.t = "err" \/ IdLt(v.last, o.K[k].v.last)
+  /\ \A g \in DOMAIN v.groups : GroupLaws(k, g)
+(* the last id of a stream never decreases while stream commands act on it *)
+LastMono ==
+  (path # <<>> /\ CmdName(Upper(path[Len(path)][1])) \in StreamCommands) =>
+     \A k \in DOMAIN K \cap DOMAIN lastK :
+        (IsT(K, k, "stream") /\ IsT(lastK, k, "stream")) => IdLe(lastK[k].v.last, K[k].v.last)
+
 Laws ==
   \A k \in DOMAIN K \cup {<<122>>} :
     /\ LET ex == R1("EXISTS", <<L_EXISTS, k>>) ty == R1("TYPE", <<L_TYPE, k>>)
@@ -91,6 +131,7 @@ Laws ==
          /\ R1("STRLEN", <<L_STRLEN, k>>) = RInt(Len(R1("GET", <<L_GET, k>>).v))
          /\ R1("GETRANGE", <<L_GETRANGE, k, <<48>>, <<45, 49>>>>) = R1("GET", <<L_GET, k>>)
     /\ IsT(K, k, "zset") => ZLaws(k)
+    /\ IsT(K, k, "stream") => StreamLaws(k)
     /\ R1("DBSIZE", <<L_DBSIZE>>) = RInt(Len(R1("KEYS", <<L_KEYS, <<42>>>>).v))
 
 =============================================================================
